@@ -24,6 +24,8 @@ func New(logger *zap.Logger, key dbft.PrivateKey, pub dbft.PublicKey,
 		dbft.WithTimePerBlock[crypto.Uint256](func() time.Duration {
 			return time.Second * 5
 		}),
+		// The payloads and blocks of this package keep timestamps in seconds.
+		dbft.WithTimestampIncrement[crypto.Uint256](uint64(time.Second/time.Nanosecond)),
 		dbft.WithGetKeyPair[crypto.Uint256](func(pubs []dbft.PublicKey) (int, dbft.PrivateKey, dbft.PublicKey) {
 			for i := range pubs {
 				if pub.(*crypto.ECDSAPub).Equals(pubs[i]) {
